@@ -139,7 +139,8 @@ def _r1(w: World, rep: Report, storage: str):
                 elif isinstance(par, (ast.Call,)) and x in par.args:
                     nm = dotted(par.func) or ''
                     kind = f'arg:{nm}'
-                    ok = nm in ('len', 'list', 'sum', 'tuple', 'reversed', 'enumerate', 'iter')
+                    ok = nm in ('len', 'list', 'sum', 'tuple', 'reversed', 'enumerate', 'iter', 'sorted', 'any', 'all', 'min', 'max') or \
+                        (nm == "map" and par.args and isinstance(par.args[0], ast.Name) and par.args[0].id in ('len', 'bool', 'bytes', 'type'))
                     why = '' if ok else f'stack storage handed to `{nm}`'
                 base = f'{fi.key}|{kind}'
                 counter[base] = counter.get(base, 0) + 1
